@@ -60,6 +60,7 @@ type Report struct {
 
 	obligations int
 	discharged  int
+	distinct    map[string]bool // distinct obligation identities (rule + construct), measured
 	ruleCount   map[string]int
 	floors      map[string]int
 	samples     []any
@@ -86,6 +87,28 @@ func NewReport(property, tier string, seed int64) *Report {
 func (r *Report) Obligation(rule string, ok bool, sample any) {
 	r.obligations++
 	r.ruleCount[rule]++
+	if r.distinct == nil {
+		r.distinct = map[string]bool{}
+	}
+	id := rule
+	if m, isMap := sample.(map[string]any); isMap {
+		// identity = rule + construct: positions and verdicts are not part of it
+		cp := map[string]any{}
+		for k, v := range m {
+			if k == "at" || k == "ok" || k == "pos" {
+				continue
+			}
+			cp[k] = v
+		}
+		b, _ := json.Marshal(cp)
+		id += "|" + string(b)
+	} else if sample != nil {
+		b, _ := json.Marshal(sample)
+		id += "|" + string(b)
+	} else {
+		id += fmt.Sprintf("|#%d", r.obligations)
+	}
+	r.distinct[id] = true
 	if ok {
 		r.discharged++
 	}
@@ -222,14 +245,14 @@ func (r *Report) Finish(outDir string, findings []Finding) int {
 		"not_decided":        r.NotDecided,
 		"known_findings_hit": len(knownHit),
 		"checker_cmd":        fmt.Sprintf("./check %s %s", r.Property, r.Tier),
-		"rule":               "every instance of each rule on /repo's current tree is one obligation; distinct by rule+function+object",
+		"rule":               "every instance of each rule on /repo's current tree is one obligation (evaluations = obligations); distinct_nontrivial counts the distinct identities rule+function+construct among them (positions and verdicts excluded), measured on this run",
 	}
 	distinct := map[string]bool{}
 	for _, s := range r.samples {
 		b, _ := json.Marshal(s)
 		distinct[string(b)] = true
 	}
-	cov["distinct_nontrivial"] = r.obligations
+	cov["distinct_nontrivial"] = len(r.distinct)
 	if len(r.samples) == 0 {
 		r.samples = append(r.samples, map[string]any{"note": "no obligations"})
 	}
